@@ -228,6 +228,20 @@ def flag_locals(fn, keys):
                     zero_init[("local", d["id"], d["n"])] = d
     out = set()
     keyset = set(keys)
+    # `n = (p != nullptr) ? N : 0` (the test possibly named in a bool local first): n > 0 implies p != nullptr
+    bool_tests = {}
+    for s in C.walk_stmt(fn["body"]):
+        if s.get("k") == "Decl":
+            for d in s["d"]:
+                if d.get("init") is not None and (d.get("t") or "").replace("const ", "").strip() == "bool":
+                    t0 = null_test(d["init"]) if C.strip_casts(d["init"]).get("k") == "Bin" else None
+                    if t0 and t0[0] in keyset:
+                        bool_tests[("local", d["id"], d["n"])] = t0
+    for s in C.walk_stmt(fn["body"]):
+        if s.get("k") == "Decl":
+            for d in s["d"]:
+                if cond_flag_init(d, keyset, bool_tests) is not None:
+                    out.add(("local", d["id"], d["n"]))
     for s in C.walk_stmt(fn["body"]):
         if s.get("k") == "If" and s.get("c") is not None:
             tests = False
@@ -249,6 +263,32 @@ def flag_locals(fn, keys):
                         if z.get("k") == "Bin" and z.get("op") == "=" and C.ref_key(z["a"]) in zero_init:
                             out.add(C.ref_key(z["a"]))
     return sorted(out, key=str)
+
+
+def cond_flag_init(d, keyset, bool_tests):
+    """(pointer key, polarity under which the flag is non-zero) for `T n = test ? X : 0` / `test ? 0 : X`, else None"""
+    if d.get("init") is None or _ptr_type(d.get("t")):
+        return None
+    i0 = C.strip_casts(d["init"])
+    if i0.get("k") != "Cond":
+        return None
+    za, zb = zero_lit(i0["a"]), zero_lit(i0["b"])
+    if za == zb:
+        return None
+    c0 = C.strip_casts(i0["c"])
+    t = None
+    if c0.get("k") == "Bin":
+        t = null_test(c0)
+    elif c0.get("k") == "Ref" and C.ref_key(c0) in bool_tests:
+        t = bool_tests[C.ref_key(c0)]
+    elif c0.get("k") == "Un" and c0.get("op") == "!" and C.ref_key(C.strip_casts(c0["x"])) in bool_tests:
+        b = bool_tests[C.ref_key(C.strip_casts(c0["x"]))]
+        t = (b[0], not b[1])
+    if t is None or t[0] not in keyset:
+        return None
+    # the flag is non-zero only when the condition selects the non-zero arm
+    cond_true_nonzero = zb           # `test ? X : 0`: non-zero when the test is true
+    return t[0], (t[1] if cond_true_nonzero else not t[1])
 
 
 def flag_test(e):
@@ -344,6 +384,21 @@ class NullAnalysis:
                             return []
                         st = list(r)
                     k = ("local", d["id"], d["n"])
+                    cf = cond_flag_init(d, set(self.idx) - self.flags, self.null_flags) if k in self.flags else None
+                    if cf is not None:
+                        # two outcomes: the test selected the non-zero arm (pointer as the test says) or the zero arm
+                        pi = self.idx[cf[0]]
+                        outs = []
+                        for nonzero in (True, False):
+                            nonnull = (cf[1] == nonzero)
+                            if (st[pi] == NULL and nonnull) or (st[pi] == NONNULL and not nonnull):
+                                continue
+                            s2 = list(st)
+                            s2[pi] = NONNULL if nonnull else NULL
+                            s2[self.idx[k]] = ANY if nonzero else ZERO
+                            outs.append((None, tuple(s2)))
+                        if len(node.ast["d"]) == 1:
+                            return outs
                     if k in self.flags:
                         st[self.idx[k]] = self.flag_value(d["init"]) if d.get("init") is not None else ANY
                     elif k in self.idx:
